@@ -2,25 +2,34 @@
   `policy.py`, the whole policy-file *text* path:
 
   * `parse`  — `Policy.__init__(policy_data=text)`, line by line: `text.split("\n")`, `line.strip()`, comment / blank
-    lines, `line.split('=', 1)`, the list of allowed keys (with the three legacy prefixes), quoting / unescaping of `name`
-    and `banner`, `version`, the six name-list directives, `host_key_sizes` / `dh_modulus_sizes` (JSON), the legacy
-    `hostkey_size_*` / `cakey_size_*` / `dh_modulus_size_*` directives (including the local variable `hostkey_size`
-    that a `cakey_size_*` line reads), `client policy`, the two sticky flags, every exception the parser raises
-    (as data: `PFErr`), and the post-checks (name and version are required).
-  * `create` — `Policy.create(source, banner, kex, client_audit)`: the complete text `-M` writes, comment lines
-    included (`today` is a parameter: `date.today().strftime('%Y/%m/%d')`).
+    lines, `line.split('=', 1)`, `key.strip()` / `val.strip()` (`step`), then the `if key not in [...]` check with the three
+    legacy prefixes and the `if / elif` chain (`dispatch`; the branches that do more than one assignment are `dQuoted`,
+    `dLegacyHostkey`, `dLegacyCakey`, `dHostKeySizes`, `dLegacyDh`, `dDhSizes`, `dFlags`): quoting / unescaping of `name` and
+    `banner`, `version`, the six name-list directives, `host_key_sizes` / `dh_modulus_sizes` (JSON), the legacy
+    `hostkey_size_*` / `cakey_size_*` / `dh_modulus_size_*` directives (including the local variable `hostkey_size` that a
+    `cakey_size_*` line reads, and the count of deprecation warnings printed), `client policy`, the two sticky flags, every
+    exception the parser raises (as data: `PFErr`, with the text the message carries), and the post-checks (`finish`: name and
+    version are required).  `str.strip()` is `Text.stripU` (the white space of `str.isspace()`), `val.lower() == 'true'` is
+    ASCII lowering (no non-ASCII character lowers to a letter of `true`).
+  * `create` — `Policy.create(source, banner, kex, client_audit)`: the complete text `-M` writes, comment lines included
+    (`createLines` joined by `\n`; `today` is a parameter: `date.today().strftime('%Y/%m/%d')`; `peer.bannerStr` is
+    `str(banner)`; without a kex the lists print as `None`).  Neither the source nor the banner is escaped by the code.
+    The long fixed comment lines are character-list constants (`cName`, …): the kernel evaluates `String.toList` on long
+    literals very slowly.
 
-  JSON.  `json.loads` is a *parameter* (`jl`) of `step` / `parse`, and this file also contains a small exact model of
-  it (`Json.loads`: objects, arrays, strings with every escape incl. `\uXXXX` and surrogate pairs, integers, literals;
-  strict mode: raw control characters rejected; duplicate keys: last value, first position, as `dict`), which is the
-  instance the driver runs and the theorems of `Props/C05File.lean` are finally stated for.  `Json.dumpStr` /
-  `dumpDict` model `json.dumps` (default `ensure_ascii=True`, separators `', '` / `': '`) on exactly the two shapes
-  `Policy.create` writes: `{name: {"hostkey_size": n[, "ca_key_type": s, "ca_key_size": n]}}` and `{name: n}`.
+  JSON.  `json.loads` is a *parameter* (`jl`) of `dispatch` / `step` / `parseWith`, and this file also contains a small exact
+  model of it (`Json.loads`: objects, arrays, strings with every escape incl. `\uXXXX` and surrogate pairs, numbers, the
+  literals incl. `NaN` / `Infinity`; strict mode: raw control characters rejected; duplicate keys: last value, first position,
+  as `dict`), which is the instance `parse` uses, the driver runs, and `Props/C05File.lean` proves the round trip for.
+  `Json.dumpStr` / `dumpDict` model `json.dumps` (default `ensure_ascii=True`, separators `', '` / `': '`) on exactly the two
+  shapes `Policy.create` writes: `{name: {"hostkey_size": n[, "ca_key_type": s, "ca_key_size": n]}}` and `{name: n}`.
+  The recursive functions take fuel (structural recursion, so that the kernel can run them); `loads` / `parseStr` supply enough.
 
-  Limits of the model (answer `PFErr.outOfModel` / `JErr.outOfModel`, the harness skips such inputs):
+  Limits of the model (answer `PFErr.outOfModel` / `JErr.outOfModel`; the harness does not compare such inputs):
   JSON values the structured record `Pol.Policy` cannot hold (sizes that are negative / floats / strings, a
-  `host_key_sizes` entry without `hostkey_size`, a top-level array or string, lone UTF-16 surrogates, non-ASCII decimal
-  digits for `int()`).  Floats are recognised (so that the *syntax* is exact) but carry no value.
+  `host_key_sizes` entry without `hostkey_size`, a top-level array or string, lone UTF-16 surrogates); `int()` is modelled
+  for ASCII digits (CPython also accepts other Unicode decimal digits).  Floats are recognised (so that the *syntax* is
+  exact) but carry no value.
 
   Import-free apart from `Model.Policy` / `Model.Text`.
 -/
@@ -444,14 +453,76 @@ def kSubset : Str := s "allow_algorithm_subset_and_reordering"
 def kLarger : Str := s "allow_larger_keys"
 def vTrue : Str := s "true"
 
+/-! The branches of the `if / elif` chain that do more than one assignment, one function each. -/
+
+/-- `name` / `banner`: a blank value counts as `""`; the value must be quoted; quotes removed, `\"` and `\n` unescaped -/
+def dQuoted (st : PState) (key val : Str) : Except PFErr PState :=
+  let val2 : Str := if val.length < 2 then ['"', '"'] else val
+  if val2.head? ≠ some '"' ∨ val2.getLast? ≠ some '"' then .error (.unquoted key val2)
+  else if key = kName then .ok { st with name := some (unquote val2) }
+  else .ok { st with pol := { st.pol with banner := some (unquote val2) } }
+
+/-- `hostkey_size_<type> = n` (deprecated; the warning is printed first, then `int(val)`) -/
+def dLegacyHostkey (st : PState) (key val : Str) : Except PFErr PState :=
+  match pyInt val with
+  | none => .error (.badInt val)
+  | some i => if i < 0 then .error .outOfModel else
+    let h : HKS := { size := i.toNat, caType := [], caSize := 0 }
+    .ok { st with warnings := st.warnings + 1, hostkeySizeVar := some i.toNat,
+                  pol := { st.pol with hostkeySizes := some (Json.dictSet (st.pol.hostkeySizes.getD []) (key.drop 13) h) } }
+
+/-- `cakey_size_<type> = n` (deprecated): the entry takes the value the variable `hostkey_size` last got -/
+def dLegacyCakey (st : PState) (key val : Str) : Except PFErr PState :=
+  match pyInt val with
+  | none => .error (.badInt val)
+  | some i =>
+    match st.hostkeySizeVar with
+    | none => .error .unbound
+    | some hsz => if i < 0 then .error .outOfModel else
+      let t := key.drop 11
+      let h : HKS := { size := hsz, caType := caTypeFor t, caSize := i.toNat }
+      .ok { st with warnings := st.warnings + 1,
+                    pol := { st.pol with hostkeySizes := some (Json.dictSet (st.pol.hostkeySizes.getD []) t h) } }
+
+/-- `host_key_sizes = <json>` -/
+def dHostKeySizes (jl : Str → Except JErr JV) (st : PState) (val : Str) : Except PFErr PState :=
+  match jl val with
+  | .error .invalid => .error .badJson
+  | .error .outOfModel => .error .outOfModel
+  | .ok j =>
+    match hksOfJsonTop j with
+    | .error e => .error e
+    | .ok m => .ok { st with pol := { st.pol with hostkeySizes := m } }
+
+/-- `dh_modulus_size_<kex> = n` (deprecated) -/
+def dLegacyDh (st : PState) (key val : Str) : Except PFErr PState :=
+  match pyInt val with
+  | none => .error (.badInt val)
+  | some i => if i < 0 then .error .outOfModel else
+    .ok { st with warnings := st.warnings + 1,
+                  pol := { st.pol with dhSizes := some (Json.dictSet (st.pol.dhSizes.getD []) (key.drop 16) i.toNat) } }
+
+/-- `dh_modulus_sizes = <json>` -/
+def dDhSizes (jl : Str → Except JErr JV) (st : PState) (val : Str) : Except PFErr PState :=
+  match jl val with
+  | .error .invalid => .error .badJson
+  | .error .outOfModel => .error .outOfModel
+  | .ok j =>
+    match dhOfJson j with
+    | .error e => .error e
+    | .ok m => .ok { st with pol := { st.pol with dhSizes := m } }
+
+/-- the last three `elif`s: a flag is only ever switched on (`… = false` changes nothing) -/
+def dFlags (st : PState) (key val : Str) : PState :=
+  if Text.startsWith key kClient && Text.lower val == vTrue then { st with serverPolicy := false }
+  else if key == kSubset && Text.lower val == vTrue then { st with pol := { st.pol with allowSubset := true } }
+  else if key == kLarger && Text.lower val == vTrue then { st with pol := { st.pol with allowLarger := true } }
+  else st
+
 /-- one directive: `key` and `val` are the stripped halves of `line` (the `if key not in [...]` check and the `if / elif` chain) -/
 def dispatch (jl : Str → Except JErr JV) (st : PState) (line key val : Str) : Except PFErr PState :=
   if !keyOk key then .error (.badField line)
-  else if key = kName ∨ key = kBanner then
-    let val2 : Str := if val.length < 2 then ['"', '"'] else val
-    if val2.head? ≠ some '"' ∨ val2.getLast? ≠ some '"' then .error (.unquoted key val2)
-    else if key = kName then .ok { st with name := some (unquote val2) }
-    else .ok { st with pol := { st.pol with banner := some (unquote val2) } }
+  else if key = kName ∨ key = kBanner then dQuoted st key val
   else if key = kVersion then .ok { st with version := some val }
   else if key = kCompressions then .ok { st with pol := { st.pol with compressions := some (parseAlgs val) } }
   else if key = kHostKeys then .ok { st with pol := { st.pol with hostKeys := some (parseAlgs val) } }
@@ -459,51 +530,12 @@ def dispatch (jl : Str → Except JErr JV) (st : PState) (line key val : Str) : 
   else if key = kKex then .ok { st with pol := { st.pol with kex := some (parseAlgs val) } }
   else if key = kCiphers then .ok { st with pol := { st.pol with ciphers := some (parseAlgs val) } }
   else if key = kMacs then .ok { st with pol := { st.pol with macs := some (parseAlgs val) } }
-  else if Text.startsWith key pfxHostkey then
-    -- (the deprecation warning is printed first)
-    match pyInt val with
-    | none => .error (.badInt val)
-    | some i => if i < 0 then .error .outOfModel else
-      let h : HKS := { size := i.toNat, caType := [], caSize := 0 }
-      .ok { st with warnings := st.warnings + 1, hostkeySizeVar := some i.toNat,
-                    pol := { st.pol with hostkeySizes := some (Json.dictSet (st.pol.hostkeySizes.getD []) (key.drop 13) h) } }
-  else if Text.startsWith key pfxCakey then
-    match pyInt val with
-    | none => .error (.badInt val)
-    | some i =>
-      match st.hostkeySizeVar with
-      | none => .error .unbound
-      | some hsz => if i < 0 then .error .outOfModel else
-        let t := key.drop 11
-        let h : HKS := { size := hsz, caType := caTypeFor t, caSize := i.toNat }
-        .ok { st with warnings := st.warnings + 1,
-                      pol := { st.pol with hostkeySizes := some (Json.dictSet (st.pol.hostkeySizes.getD []) t h) } }
-  else if key = kHostKeySizes then
-    match jl val with
-    | .error .invalid => .error .badJson
-    | .error .outOfModel => .error .outOfModel
-    | .ok j =>
-      match hksOfJsonTop j with
-      | .error e => .error e
-      | .ok m => .ok { st with pol := { st.pol with hostkeySizes := m } }
-  else if Text.startsWith key pfxDh then
-    match pyInt val with
-    | none => .error (.badInt val)
-    | some i => if i < 0 then .error .outOfModel else
-      .ok { st with warnings := st.warnings + 1,
-                    pol := { st.pol with dhSizes := some (Json.dictSet (st.pol.dhSizes.getD []) (key.drop 16) i.toNat) } }
-  else if key = kDhSizes then
-    match jl val with
-    | .error .invalid => .error .badJson
-    | .error .outOfModel => .error .outOfModel
-    | .ok j =>
-      match dhOfJson j with
-      | .error e => .error e
-      | .ok m => .ok { st with pol := { st.pol with dhSizes := m } }
-  else if Text.startsWith key kClient && Text.lower val == vTrue then .ok { st with serverPolicy := false }
-  else if key == kSubset && Text.lower val == vTrue then .ok { st with pol := { st.pol with allowSubset := true } }
-  else if key == kLarger && Text.lower val == vTrue then .ok { st with pol := { st.pol with allowLarger := true } }
-  else .ok st
+  else if Text.startsWith key pfxHostkey then dLegacyHostkey st key val
+  else if Text.startsWith key pfxCakey then dLegacyCakey st key val
+  else if key = kHostKeySizes then dHostKeySizes jl st val
+  else if Text.startsWith key pfxDh then dLegacyDh st key val
+  else if key = kDhSizes then dDhSizes jl st val
+  else .ok (dFlags st key val)
 
 /-- the body of the `for line in lines:` loop -/
 def step (jl : Str → Except JErr JV) (st : PState) (raw : Str) : Except PFErr PState :=
@@ -551,18 +583,135 @@ def listVal (hasKex : Bool) (names : List Str) : Str := if hasKex then Text.join
 
 def nameVal (source today : Str) : Str := s "Custom Policy (based on " ++ source ++ s " on " ++ today ++ s ")"
 
+/-! The fixed comment lines of the template (after the `#`), as character lists: the kernel evaluates `String.toList` on long literals
+    very slowly.  The text of each is in its doc comment; the correspondence check compares the whole text with the real `Policy.create`. -/
+
+/-- `# Set to true to signify this is a policy for clients, not servers.` -/
+def cClient : Str :=
+  [' ', 'S', 'e', 't', ' ', 't', 'o', ' ', 't', 'r', 'u', 'e', ' ', 't', 'o', ' ', 's', 'i', 'g', 'n', 'i', 'f', 'y', ' ', 't', 'h', 'i', 's', ' ',
+   'i', 's', ' ', 'a', ' ', 'p', 'o', 'l', 'i', 'c', 'y', ' ', 'f', 'o', 'r', ' ', 'c', 'l', 'i', 'e', 'n', 't', 's', ',', ' ', 'n', 'o', 't', ' ',
+   's', 'e', 'r', 'v', 'e', 'r', 's', '.']
+
+/-- `# Dictionary containing all host key and size information.  Optionally contains the certificate authority's signature algorithm ('ca_key_type') and signature length ('ca_key_size'), if any.` -/
+def cHostKeySizes : Str :=
+  [' ', 'D', 'i', 'c', 't', 'i', 'o', 'n', 'a', 'r', 'y', ' ', 'c', 'o', 'n', 't', 'a', 'i', 'n', 'i', 'n', 'g', ' ', 'a', 'l', 'l', ' ', 'h', 'o',
+   's', 't', ' ', 'k', 'e', 'y', ' ', 'a', 'n', 'd', ' ', 's', 'i', 'z', 'e', ' ', 'i', 'n', 'f', 'o', 'r', 'm', 'a', 't', 'i', 'o', 'n', '.', ' ',
+   ' ', 'O', 'p', 't', 'i', 'o', 'n', 'a', 'l', 'l', 'y', ' ', 'c', 'o', 'n', 't', 'a', 'i', 'n', 's', ' ', 't', 'h', 'e', ' ', 'c', 'e', 'r', 't',
+   'i', 'f', 'i', 'c', 'a', 't', 'e', ' ', 'a', 'u', 't', 'h', 'o', 'r', 'i', 't', 'y', '\'', 's', ' ', 's', 'i', 'g', 'n', 'a', 't', 'u', 'r', 'e',
+   ' ', 'a', 'l', 'g', 'o', 'r', 'i', 't', 'h', 'm', ' ', '(', '\'', 'c', 'a', '_', 'k', 'e', 'y', '_', 't', 'y', 'p', 'e', '\'', ')', ' ', 'a', 'n',
+   'd', ' ', 's', 'i', 'g', 'n', 'a', 't', 'u', 'r', 'e', ' ', 'l', 'e', 'n', 'g', 't', 'h', ' ', '(', '\'', 'c', 'a', '_', 'k', 'e', 'y', '_', 's',
+   'i', 'z', 'e', '\'', ')', ',', ' ', 'i', 'f', ' ', 'a', 'n', 'y', '.']
+
+/-- `# Group exchange DH modulus sizes.` -/
+def cDhSizes : Str :=
+  [' ', 'G', 'r', 'o', 'u', 'p', ' ', 'e', 'x', 'c', 'h', 'a', 'n', 'g', 'e', ' ', 'D', 'H', ' ', 'm', 'o', 'd', 'u', 'l', 'u', 's', ' ', 's', 'i',
+   'z', 'e', 's', '.']
+
+/-- `# The name of this policy (displayed in the output during scans).  Must be in quotes.` -/
+def cName : Str :=
+  [' ', 'T', 'h', 'e', ' ', 'n', 'a', 'm', 'e', ' ', 'o', 'f', ' ', 't', 'h', 'i', 's', ' ', 'p', 'o', 'l', 'i', 'c', 'y', ' ', '(', 'd', 'i', 's',
+   'p', 'l', 'a', 'y', 'e', 'd', ' ', 'i', 'n', ' ', 't', 'h', 'e', ' ', 'o', 'u', 't', 'p', 'u', 't', ' ', 'd', 'u', 'r', 'i', 'n', 'g', ' ', 's',
+   'c', 'a', 'n', 's', ')', '.', ' ', ' ', 'M', 'u', 's', 't', ' ', 'b', 'e', ' ', 'i', 'n', ' ', 'q', 'u', 'o', 't', 'e', 's', '.']
+
+/-- `# The version of this policy (displayed in the output during scans).  Not parsed, and may be any value, including strings.` -/
+def cVersion : Str :=
+  [' ', 'T', 'h', 'e', ' ', 'v', 'e', 'r', 's', 'i', 'o', 'n', ' ', 'o', 'f', ' ', 't', 'h', 'i', 's', ' ', 'p', 'o', 'l', 'i', 'c', 'y', ' ', '(',
+   'd', 'i', 's', 'p', 'l', 'a', 'y', 'e', 'd', ' ', 'i', 'n', ' ', 't', 'h', 'e', ' ', 'o', 'u', 't', 'p', 'u', 't', ' ', 'd', 'u', 'r', 'i', 'n',
+   'g', ' ', 's', 'c', 'a', 'n', 's', ')', '.', ' ', ' ', 'N', 'o', 't', ' ', 'p', 'a', 'r', 's', 'e', 'd', ',', ' ', 'a', 'n', 'd', ' ', 'm', 'a',
+   'y', ' ', 'b', 'e', ' ', 'a', 'n', 'y', ' ', 'v', 'a', 'l', 'u', 'e', ',', ' ', 'i', 'n', 'c', 'l', 'u', 'd', 'i', 'n', 'g', ' ', 's', 't', 'r',
+   'i', 'n', 'g', 's', '.']
+
+/-- `# When false, host keys, kex, ciphers, and MAC lists must match exactly.  When true, the target host may support a subset of the specified algorithms and/or algorithms may appear in a different order; this feature is useful for specifying a baseline and allowing some hosts the option to implement stricter controls.` -/
+def cSubset : Str :=
+  [' ', 'W', 'h', 'e', 'n', ' ', 'f', 'a', 'l', 's', 'e', ',', ' ', 'h', 'o', 's', 't', ' ', 'k', 'e', 'y', 's', ',', ' ', 'k', 'e', 'x', ',', ' ',
+   'c', 'i', 'p', 'h', 'e', 'r', 's', ',', ' ', 'a', 'n', 'd', ' ', 'M', 'A', 'C', ' ', 'l', 'i', 's', 't', 's', ' ', 'm', 'u', 's', 't', ' ', 'm',
+   'a', 't', 'c', 'h', ' ', 'e', 'x', 'a', 'c', 't', 'l', 'y', '.', ' ', ' ', 'W', 'h', 'e', 'n', ' ', 't', 'r', 'u', 'e', ',', ' ', 't', 'h', 'e',
+   ' ', 't', 'a', 'r', 'g', 'e', 't', ' ', 'h', 'o', 's', 't', ' ', 'm', 'a', 'y', ' ', 's', 'u', 'p', 'p', 'o', 'r', 't', ' ', 'a', ' ', 's', 'u',
+   'b', 's', 'e', 't', ' ', 'o', 'f', ' ', 't', 'h', 'e', ' ', 's', 'p', 'e', 'c', 'i', 'f', 'i', 'e', 'd', ' ', 'a', 'l', 'g', 'o', 'r', 'i', 't',
+   'h', 'm', 's', ' ', 'a', 'n', 'd', '/', 'o', 'r', ' ', 'a', 'l', 'g', 'o', 'r', 'i', 't', 'h', 'm', 's', ' ', 'm', 'a', 'y', ' ', 'a', 'p', 'p',
+   'e', 'a', 'r', ' ', 'i', 'n', ' ', 'a', ' ', 'd', 'i', 'f', 'f', 'e', 'r', 'e', 'n', 't', ' ', 'o', 'r', 'd', 'e', 'r', ';', ' ', 't', 'h', 'i',
+   's', ' ', 'f', 'e', 'a', 't', 'u', 'r', 'e', ' ', 'i', 's', ' ', 'u', 's', 'e', 'f', 'u', 'l', ' ', 'f', 'o', 'r', ' ', 's', 'p', 'e', 'c', 'i',
+   'f', 'y', 'i', 'n', 'g', ' ', 'a', ' ', 'b', 'a', 's', 'e', 'l', 'i', 'n', 'e', ' ', 'a', 'n', 'd', ' ', 'a', 'l', 'l', 'o', 'w', 'i', 'n', 'g',
+   ' ', 's', 'o', 'm', 'e', ' ', 'h', 'o', 's', 't', 's', ' ', 't', 'h', 'e', ' ', 'o', 'p', 't', 'i', 'o', 'n', ' ', 't', 'o', ' ', 'i', 'm', 'p',
+   'l', 'e', 'm', 'e', 'n', 't', ' ', 's', 't', 'r', 'i', 'c', 't', 'e', 'r', ' ', 'c', 'o', 'n', 't', 'r', 'o', 'l', 's', '.']
+
+/-- `# When false, host keys, CA keys, and Diffie-Hellman key sizes must exactly match what's specified in this policy.  When true, target systems are allowed to have larger keys; this feature is useful for specifying a baseline and allowing some hosts the option to implement stricter controls.` -/
+def cLarger : Str :=
+  [' ', 'W', 'h', 'e', 'n', ' ', 'f', 'a', 'l', 's', 'e', ',', ' ', 'h', 'o', 's', 't', ' ', 'k', 'e', 'y', 's', ',', ' ', 'C', 'A', ' ', 'k', 'e',
+   'y', 's', ',', ' ', 'a', 'n', 'd', ' ', 'D', 'i', 'f', 'f', 'i', 'e', '-', 'H', 'e', 'l', 'l', 'm', 'a', 'n', ' ', 'k', 'e', 'y', ' ', 's', 'i',
+   'z', 'e', 's', ' ', 'm', 'u', 's', 't', ' ', 'e', 'x', 'a', 'c', 't', 'l', 'y', ' ', 'm', 'a', 't', 'c', 'h', ' ', 'w', 'h', 'a', 't', '\'', 's',
+   ' ', 's', 'p', 'e', 'c', 'i', 'f', 'i', 'e', 'd', ' ', 'i', 'n', ' ', 't', 'h', 'i', 's', ' ', 'p', 'o', 'l', 'i', 'c', 'y', '.', ' ', ' ', 'W',
+   'h', 'e', 'n', ' ', 't', 'r', 'u', 'e', ',', ' ', 't', 'a', 'r', 'g', 'e', 't', ' ', 's', 'y', 's', 't', 'e', 'm', 's', ' ', 'a', 'r', 'e', ' ',
+   'a', 'l', 'l', 'o', 'w', 'e', 'd', ' ', 't', 'o', ' ', 'h', 'a', 'v', 'e', ' ', 'l', 'a', 'r', 'g', 'e', 'r', ' ', 'k', 'e', 'y', 's', ';', ' ',
+   't', 'h', 'i', 's', ' ', 'f', 'e', 'a', 't', 'u', 'r', 'e', ' ', 'i', 's', ' ', 'u', 's', 'e', 'f', 'u', 'l', ' ', 'f', 'o', 'r', ' ', 's', 'p',
+   'e', 'c', 'i', 'f', 'y', 'i', 'n', 'g', ' ', 'a', ' ', 'b', 'a', 's', 'e', 'l', 'i', 'n', 'e', ' ', 'a', 'n', 'd', ' ', 'a', 'l', 'l', 'o', 'w',
+   'i', 'n', 'g', ' ', 's', 'o', 'm', 'e', ' ', 'h', 'o', 's', 't', 's', ' ', 't', 'h', 'e', ' ', 'o', 'p', 't', 'i', 'o', 'n', ' ', 't', 'o', ' ',
+   'i', 'm', 'p', 'l', 'e', 'm', 'e', 'n', 't', ' ', 's', 't', 'r', 'i', 'c', 't', 'e', 'r', ' ', 'c', 'o', 'n', 't', 'r', 'o', 'l', 's', '.']
+
+/-- `# The banner that must match exactly.  Commented out to ignore banners, since minor variability in the banner is sometimes normal.` -/
+def cBanner : Str :=
+  [' ', 'T', 'h', 'e', ' ', 'b', 'a', 'n', 'n', 'e', 'r', ' ', 't', 'h', 'a', 't', ' ', 'm', 'u', 's', 't', ' ', 'm', 'a', 't', 'c', 'h', ' ', 'e',
+   'x', 'a', 'c', 't', 'l', 'y', '.', ' ', ' ', 'C', 'o', 'm', 'm', 'e', 'n', 't', 'e', 'd', ' ', 'o', 'u', 't', ' ', 't', 'o', ' ', 'i', 'g', 'n',
+   'o', 'r', 'e', ' ', 'b', 'a', 'n', 'n', 'e', 'r', 's', ',', ' ', 's', 'i', 'n', 'c', 'e', ' ', 'm', 'i', 'n', 'o', 'r', ' ', 'v', 'a', 'r', 'i',
+   'a', 'b', 'i', 'l', 'i', 't', 'y', ' ', 'i', 'n', ' ', 't', 'h', 'e', ' ', 'b', 'a', 'n', 'n', 'e', 'r', ' ', 'i', 's', ' ', 's', 'o', 'm', 'e',
+   't', 'i', 'm', 'e', 's', ' ', 'n', 'o', 'r', 'm', 'a', 'l', '.']
+
+/-- `# The compression options that must match exactly (order matters).  Commented out to ignore by default.` -/
+def cCompressions : Str :=
+  [' ', 'T', 'h', 'e', ' ', 'c', 'o', 'm', 'p', 'r', 'e', 's', 's', 'i', 'o', 'n', ' ', 'o', 'p', 't', 'i', 'o', 'n', 's', ' ', 't', 'h', 'a', 't',
+   ' ', 'm', 'u', 's', 't', ' ', 'm', 'a', 't', 'c', 'h', ' ', 'e', 'x', 'a', 'c', 't', 'l', 'y', ' ', '(', 'o', 'r', 'd', 'e', 'r', ' ', 'm', 'a',
+   't', 't', 'e', 'r', 's', ')', '.', ' ', ' ', 'C', 'o', 'm', 'm', 'e', 'n', 't', 'e', 'd', ' ', 'o', 'u', 't', ' ', 't', 'o', ' ', 'i', 'g', 'n',
+   'o', 'r', 'e', ' ', 'b', 'y', ' ', 'd', 'e', 'f', 'a', 'u', 'l', 't', '.']
+
+/-- `# The host key types that must match exactly (order matters).` -/
+def cHostKeys : Str :=
+  [' ', 'T', 'h', 'e', ' ', 'h', 'o', 's', 't', ' ', 'k', 'e', 'y', ' ', 't', 'y', 'p', 'e', 's', ' ', 't', 'h', 'a', 't', ' ', 'm', 'u', 's', 't',
+   ' ', 'm', 'a', 't', 'c', 'h', ' ', 'e', 'x', 'a', 'c', 't', 'l', 'y', ' ', '(', 'o', 'r', 'd', 'e', 'r', ' ', 'm', 'a', 't', 't', 'e', 'r', 's',
+   ')', '.']
+
+/-- `# Host key types that may optionally appear.` -/
+def cOptional : Str :=
+  [' ', 'H', 'o', 's', 't', ' ', 'k', 'e', 'y', ' ', 't', 'y', 'p', 'e', 's', ' ', 't', 'h', 'a', 't', ' ', 'm', 'a', 'y', ' ', 'o', 'p', 't', 'i',
+   'o', 'n', 'a', 'l', 'l', 'y', ' ', 'a', 'p', 'p', 'e', 'a', 'r', '.']
+
+/-- `#optional host keys = ssh-ed25519-cert-v01@openssh.com,sk-ssh-ed25519@openssh.com,sk-ssh-ed25519-cert-v01@openssh.com,rsa-sha2-256-cert-v01@openssh.com,rsa-sha2-512-cert-v01@openssh.com` -/
+def cOptionalExample : Str :=
+  ['o', 'p', 't', 'i', 'o', 'n', 'a', 'l', ' ', 'h', 'o', 's', 't', ' ', 'k', 'e', 'y', 's', ' ', '=', ' ', 's', 's', 'h', '-', 'e', 'd', '2', '5',
+   '5', '1', '9', '-', 'c', 'e', 'r', 't', '-', 'v', '0', '1', '@', 'o', 'p', 'e', 'n', 's', 's', 'h', '.', 'c', 'o', 'm', ',', 's', 'k', '-', 's',
+   's', 'h', '-', 'e', 'd', '2', '5', '5', '1', '9', '@', 'o', 'p', 'e', 'n', 's', 's', 'h', '.', 'c', 'o', 'm', ',', 's', 'k', '-', 's', 's', 'h',
+   '-', 'e', 'd', '2', '5', '5', '1', '9', '-', 'c', 'e', 'r', 't', '-', 'v', '0', '1', '@', 'o', 'p', 'e', 'n', 's', 's', 'h', '.', 'c', 'o', 'm',
+   ',', 'r', 's', 'a', '-', 's', 'h', 'a', '2', '-', '2', '5', '6', '-', 'c', 'e', 'r', 't', '-', 'v', '0', '1', '@', 'o', 'p', 'e', 'n', 's', 's',
+   'h', '.', 'c', 'o', 'm', ',', 'r', 's', 'a', '-', 's', 'h', 'a', '2', '-', '5', '1', '2', '-', 'c', 'e', 'r', 't', '-', 'v', '0', '1', '@', 'o',
+   'p', 'e', 'n', 's', 's', 'h', '.', 'c', 'o', 'm']
+
+/-- `# The key exchange algorithms that must match exactly (order matters).` -/
+def cKex : Str :=
+  [' ', 'T', 'h', 'e', ' ', 'k', 'e', 'y', ' ', 'e', 'x', 'c', 'h', 'a', 'n', 'g', 'e', ' ', 'a', 'l', 'g', 'o', 'r', 'i', 't', 'h', 'm', 's', ' ',
+   't', 'h', 'a', 't', ' ', 'm', 'u', 's', 't', ' ', 'm', 'a', 't', 'c', 'h', ' ', 'e', 'x', 'a', 'c', 't', 'l', 'y', ' ', '(', 'o', 'r', 'd', 'e',
+   'r', ' ', 'm', 'a', 't', 't', 'e', 'r', 's', ')', '.']
+
+/-- `# The ciphers that must match exactly (order matters).` -/
+def cCiphers : Str :=
+  [' ', 'T', 'h', 'e', ' ', 'c', 'i', 'p', 'h', 'e', 'r', 's', ' ', 't', 'h', 'a', 't', ' ', 'm', 'u', 's', 't', ' ', 'm', 'a', 't', 'c', 'h', ' ',
+   'e', 'x', 'a', 'c', 't', 'l', 'y', ' ', '(', 'o', 'r', 'd', 'e', 'r', ' ', 'm', 'a', 't', 't', 'e', 'r', 's', ')', '.']
+
+/-- `# The MACs that must match exactly (order matters).` -/
+def cMacs : Str :=
+  [' ', 'T', 'h', 'e', ' ', 'M', 'A', 'C', 's', ' ', 't', 'h', 'a', 't', ' ', 'm', 'u', 's', 't', ' ', 'm', 'a', 't', 'c', 'h', ' ', 'e', 'x', 'a',
+   'c', 't', 'l', 'y', ' ', '(', 'o', 'r', 'd', 'e', 'r', ' ', 'm', 'a', 't', 't', 'e', 'r', 's', ')', '.']
+
 def clientChunk (clientAudit : Bool) : List Str :=
-  if clientAudit then [[], '#' :: s " Set to true to signify this is a policy for clients, not servers.", kv kClient vTrue] else []
+  if clientAudit then [[], '#' :: cClient, kv kClient vTrue] else []
 
 def hostKeysChunk (peer : Peer) : List Str :=
   if peer.hasKex ∧ peer.hostKeys ≠ [] then
-    [[], '#' :: s " Dictionary containing all host key and size information.  Optionally contains the certificate authority's signature algorithm ('ca_key_type') and signature length ('ca_key_size'), if any.",
+    [[], '#' :: cHostKeySizes,
      kv kHostKeySizes (Json.dumpHostKeys peer.hostKeys)]
   else []
 
 def dhChunk (peer : Peer) : List Str :=
   if peer.hasKex ∧ peer.dhSizes ≠ [] then
-    [[], '#' :: s " Group exchange DH modulus sizes.", kv kDhSizes (Json.dumpDh peer.dhSizes)]
+    [[], '#' :: cDhSizes, kv kDhSizes (Json.dumpDh peer.dhSizes)]
   else []
 
 /-- the lines of the text `Policy.create` returns (the text is these joined by `\n`).  `peer.bannerStr` is `str(banner)`. -/
@@ -572,38 +721,38 @@ def createLines (source today : Str) (peer : Peer) (clientAudit : Bool) : List S
    ['#']]
   ++ clientChunk clientAudit ++
   [[],
-   '#' :: s " The name of this policy (displayed in the output during scans).  Must be in quotes.",
+   '#' :: cName,
    kv kName ('"' :: (nameVal source today ++ ['"'])),
    [],
-   '#' :: s " The version of this policy (displayed in the output during scans).  Not parsed, and may be any value, including strings.",
+   '#' :: cVersion,
    kv kVersion ['1'],
    [],
-   '#' :: s " When false, host keys, kex, ciphers, and MAC lists must match exactly.  When true, the target host may support a subset of the specified algorithms and/or algorithms may appear in a different order; this feature is useful for specifying a baseline and allowing some hosts the option to implement stricter controls.",
+   '#' :: cSubset,
    kv kSubset (s "false"),
    [],
-   '#' :: s " When false, host keys, CA keys, and Diffie-Hellman key sizes must exactly match what's specified in this policy.  When true, target systems are allowed to have larger keys; this feature is useful for specifying a baseline and allowing some hosts the option to implement stricter controls.",
+   '#' :: cLarger,
    kv kLarger (s "false"),
    [],
-   '#' :: s " The banner that must match exactly.  Commented out to ignore banners, since minor variability in the banner is sometimes normal.",
+   '#' :: cBanner,
    '#' :: (s " banner = \"" ++ peer.bannerStr ++ ['"']),
    [],
-   '#' :: s " The compression options that must match exactly (order matters).  Commented out to ignore by default.",
+   '#' :: cCompressions,
    '#' :: (s " compressions = " ++ listVal peer.hasKex peer.comp)]
   ++ hostKeysChunk peer ++ dhChunk peer ++
   [[],
-   '#' :: s " The host key types that must match exactly (order matters).",
+   '#' :: cHostKeys,
    kv kHostKeys (listVal peer.hasKex peer.key),
    [],
-   '#' :: s " Host key types that may optionally appear.",
-   '#' :: s "optional host keys = ssh-ed25519-cert-v01@openssh.com,sk-ssh-ed25519@openssh.com,sk-ssh-ed25519-cert-v01@openssh.com,rsa-sha2-256-cert-v01@openssh.com,rsa-sha2-512-cert-v01@openssh.com",
+   '#' :: cOptional,
+   '#' :: cOptionalExample,
    [],
-   '#' :: s " The key exchange algorithms that must match exactly (order matters).",
+   '#' :: cKex,
    kv kKex (listVal peer.hasKex peer.kex),
    [],
-   '#' :: s " The ciphers that must match exactly (order matters).",
+   '#' :: cCiphers,
    kv kCiphers (listVal peer.hasKex peer.enc),
    [],
-   '#' :: s " The MACs that must match exactly (order matters).",
+   '#' :: cMacs,
    kv kMacs (listVal peer.hasKex peer.mac),
    []]
 
